@@ -50,6 +50,7 @@ pub fn c01(ctx: &mut Ctx, tier: &str, seed: u64) {
     let mut rng = Rng::new(seed ^ 0xa1);
     let cap = if tier_is_thorough(tier) { 8 } else { 6 };
     for s in &dom {
+        at(format!("comps u {}", hex(s)));
         let p = UnixPath::new(s);
         let fwd = comps(false, s);
         let sfwd = std_comps(s);
@@ -67,6 +68,7 @@ pub fn c01(ctx: &mut Ctx, tier: &str, seed: u64) {
         }
         let steps = fwd.len() + 1;
         for m in all_masks(steps, cap, &mut rng) {
+            at(format!("mix u {} {}", hex(s), mask_str(&m)));
             let mut a = p.components();
             let mut b = sp(s).components();
             ctx.case(fwd.len() >= 2, (s, &m));
@@ -111,6 +113,7 @@ pub fn c02(ctx: &mut Ctx, tier: &str, seed: u64) {
         ctx.tally(&format!("prefix={}", kind));
         ctx.case(nontrivial_path(&got_sc), s);
         let rp = format!("comps w {}", hex(s));
+        at(rp.clone());
         if got_sc != d.comps {
             ctx.fail("decomposition-vs-grammar", None, rp.clone(), format!("impl {} grammar {}", show_sc(&got_sc), show_sc(&d.comps)));
             continue;
@@ -197,6 +200,7 @@ pub fn c03(ctx: &mut Ctx, tier: &str, seed: u64) {
         let dom = if win { dom_win(tier, seed) } else { dom_unix(tier, seed) };
         let e = gen::e(win);
         for s in &dom {
+            at(format!("back {} {}", e, hex(s)));
             let fwd = comps(win, s);
             let mut back: Vec<SComp> = if win {
                 WindowsPath::new(s).components().rev().map(|c| sc_w(&c)).collect()
@@ -215,6 +219,7 @@ pub fn c03(ctx: &mut Ctx, tier: &str, seed: u64) {
             }
             let n = fwd.len();
             for m in all_masks(n + 1, cap, &mut rng) {
+                at(format!("mix {} {} {}", e, hex(s), mask_str(&m)));
                 ctx.case(n >= 2, (win, s, &m));
                 let (mut lo, mut hi) = (0usize, n);
                 macro_rules! drive {
@@ -360,6 +365,7 @@ pub fn c04(ctx: &mut Ctx, tier: &str, seed: u64) {
                 let v = spec::verdict(&spec_comps(win, p), win);
                 let (buf, r) = push_checked_b(win, base, p);
                 let rp = format!("pushc {} {} {}", e, hex(base), hex(p));
+                at(rp.clone());
                 ctx.tally(&format!("{}:{:?}", e, v));
                 ctx.case(spec_comps(win, p).len() >= 2 || v != spec::Verdict::Ok, (win, base, p));
                 match &r {
@@ -461,6 +467,7 @@ pub fn c05(ctx: &mut Ctx, tier: &str, seed: u64) {
         for (a, b) in &pairs {
             let (ca, cb) = (comps(win, a), comps(win, b));
             let rp = format!("rel {} {} {}", e, hex(a), hex(b));
+            at(rp.clone());
             let (eq, ord, ha, hb) = if win {
                 let (pa, pb) = (WindowsPath::new(a), WindowsPath::new(b));
                 (pa == pb, pa.cmp(pb), hash_chunks(pa), hash_chunks(pb))
